@@ -469,12 +469,12 @@ def rule_solve_exit(chk, prog):
 def run(chk):
     prog = chk.load()
     PROG[0] = prog
-    rule_block_optimum(chk, prog)
-    rule_minlm_argmin(chk, prog)
-    rule_refine_rescan(chk, prog)
-    rule_solve_exit(chk, prog)
-    rule_dfdv_form(chk, prog)
-    rule_lm_kkt(chk, prog)
+    chk.guard(rule_block_optimum, chk, prog)
+    chk.guard(rule_minlm_argmin, chk, prog)
+    chk.guard(rule_refine_rescan, chk, prog)
+    chk.guard(rule_solve_exit, chk, prog)
+    chk.guard(rule_dfdv_form, chk, prog)
+    chk.guard(rule_lm_kkt, chk, prog)
     r = chk.rule("SIBLING", "every function of libavoid's solver copy is structurally identical to its libvpsc counterpart "
                  "(alpha-renaming, assertions/casts dropped, heap ADT unified; deliberate differences in tables/siblings.json)", floor=60)
     vpsc_siblings.check(r, prog, sample=chk.sample)
